@@ -33,7 +33,13 @@ def _decision_table(ck: Checker, f: Func, lp: ast.For, tvar: str) -> dict[tuple,
         for c in ast.walk(lp):
             if isinstance(c, ast.Call) and dotted(c.func) == "is_valid_child_field_type":
                 preset[k_none(norm(c) + ".value")] = False
-    leaves = decision_tree(lp.body, alias_filter=lambda st: False, resolve=True, preset=preset)
+    # get_type_info returns a FieldTypeInfo on every path (never None)
+    gti = ck.repo.func(TYPING, "get_type_info")
+    grets = [r for r in walk_body(gti.node.body) if isinstance(r, ast.Return)]
+    built = {norm(st.targets[0]) for st in walk_body(gti.node.body) if isinstance(st, ast.Assign) and isinstance(st.value, ast.Call) and dotted(st.value.func) == "FieldTypeInfo"}
+    if grets and all(r.value is not None and ((isinstance(r.value, ast.Call) and dotted(r.value.func) == "FieldTypeInfo") or norm(r.value) in built) for r in grets):
+        preset[k_none(f"get_type_info({tvar})")] = False
+    leaves = decision_tree(lp.body, alias_filter=lambda st: False, resolve="calls", preset=preset)
     table: dict[tuple, str] = {}
     for lf in leaves:
         a = lf.assign
@@ -311,10 +317,16 @@ def r_child_kind(ck: Checker, rule: str = "R-CHILD-KIND") -> None:
     tvar = norm(lp[0].target.elts[1])
     rets = [r for r in f.node.body if isinstance(r, ast.Return)]
     child_t = norm(rets[0].value.elts[0])
-    stores = [st for st in walk_body(lp[0].body) if isinstance(st, ast.Assign) and isinstance(st.targets[0], ast.Subscript) and norm(st.targets[0].value) == child_t]
     what = "a child field is a sequence of children iff its annotation is a tuple (FieldTypeInfo(is_tuple(type), type))"
+    # the stores into the child table along the (resolved) paths of the loop body
+    seen_vals: dict[str, ast.Assign] = {}
+    for lf in decision_tree(lp[0].body, alias_filter=lambda st: False, resolve="calls", max_atoms=14):
+        for st in lf.stmts:
+            if isinstance(st, ast.Assign) and isinstance(st.targets[0], ast.Subscript) and norm(st.targets[0].value) == child_t:
+                seen_vals.setdefault(norm(st.value), st)
+    stores = list(seen_vals.values())
     if len(stores) != 1:
-        raise Unsupported("child table store not found", lp[0])
+        raise Unsupported(f"child table store not found ({len(stores)} different stored values)", lp[0])
     v = norm(stores[0].value)
     sv = stores[0].value
     canon = None
